@@ -391,7 +391,7 @@ IBIN(i_lshr, _ZNK4ikos8intervalINS_8z_numberEE4LShrERKS2_, ZB, ANYBOT ==> i_bot(
 #ifndef SHK
 #define SHK 1
 #endif
-//@check id=i_shl fn=_ZNK4ikos8intervalINS_8z_numberEE3ShlERKS2_ props=C08 defs=ZM_PRECISE vary=SHK:0,1,2,7,31,58 vary_thorough=SHK:0-58 unwind=61 timeout=600
+//@check id=i_shl fn=_ZNK4ikos8intervalINS_8z_numberEE3ShlERKS2_ props=C08 defs=ZM_PRECISE vary=SHK:0,1,2,7,31,58 vary_thorough=SHK:0-58 unwind=61 timeout=600 bounded="bit-precise small arithmetic: operands below 2^k in magnitude only"
 void _ZNK4ikos8intervalINS_8z_numberEE3ShlERKS2_(I *ret, I *self, I *x)
 __CPROVER_requires(FRESH(i_shl, ret, sizeof(I)) && IFRESH2(i_shl) && i_ok(*self) && i_ok(*x) && TOP(i_shl, GRANGE))
 #ifdef CHECK_i_shl
